@@ -1,5 +1,5 @@
 //! C18 -- results do not depend on thread count or interleaving.
-//! (1) transcript equality of a fixed workload across RAYON_NUM_THREADS in {1,2,4,16} (child processes);
+//! (1) transcript equality of a fixed workload across RAYON_NUM_THREADS in {1,2,3,4,5,7,16} and processor-confined children (child processes);
 //! (2) shared-instance monitor: read-only calls issued concurrently by many threads on one &RLN (and
 //!     one *const RLN through the FFI) compared with their sequential twins; fresh-process first-use race;
 //! (3) the same workload under ThreadSanitizer / AddressSanitizer (driver);
@@ -82,10 +82,29 @@ pub fn transcript_child(args: &[String]) -> i32 {
             (12_288, (0..512).map(|i| if (i / 2) % 2 == 0 { [a, z][i % 2] } else { [z, a][i % 2] }).collect()),
             (16_384, (0..4096).map(|i| [a, b, b, a][(i + i / 1024) % 4]).collect()),
             (4096 + 512, (0..1024).map(|i| if i % 2 == 0 { b } else { a }).collect()),
+            // big batches whose length no small worker count divides (a split of the request over 2..7 workers leaves
+            // a shorter last block), random values
+            (20_000, (0..5000).map(|_| rand_fr(&mut rng)).collect()),
+            (26_000, (0..2049).map(|_| rand_fr(&mut rng)).collect()),
+            (30_000, (0..7919).map(|_| rand_fr(&mut rng)).collect()),
+            (40_001, (0..3001).map(|i| if i % 3 == 0 { z } else { rand_fr(&mut rng) }).collect()),
         ];
         for (k, (start, leaves)) in pats.iter().enumerate() {
             let res = r.set_leaves_from(*start, Cursor::new(enc_vec_fr(leaves))).is_ok();
-            lines.push(format!("structured{k} {res} {}", root_hex(&r)));
+            lines.push(format!("structured{k} {res} {} count={}", root_hex(&r), r.leaves_set()));
+        }
+        // the same through the batch-update and batch-initialisation entry points (on a second tree)
+        {
+            let big: Vec<Fr> = (0..4999).map(|_| rand_fr(&mut rng)).collect();
+            let res = r.atomic_operation(50_000, Cursor::new(enc_vec_fr(&big)), Cursor::new(enc_vec_u8(&[]))).is_ok();
+            lines.push(format!("structured-atomic {res} {} count={}", root_hex(&r), r.leaves_set()));
+            if let Ok(mut r2) = RLN::new(14, Cursor::new("{}".to_string())) {
+                let res = r2.init_tree_with_leaves(Cursor::new(enc_vec_fr(&big[..4097]))).is_ok();
+                lines.push(format!("structured-init {res} {} count={}", root_hex(&r2), r2.leaves_set()));
+                let mut lv = vec![];
+                let _ = r2.get_leaf(4096, &mut lv);
+                lines.push(format!("structured-init-last-leaf {}", hex(&lv)));
+            }
         }
         // removals which leave (x,0) and (0,x) pairs behind
         let _ = r.set_leaves_from(0, Cursor::new(enc_vec_fr(&vec![a; 256])));
@@ -184,11 +203,37 @@ fn transcripts(rep: &mut Rep, seed: u64, n_proofs: usize) {
         rep.note("corpus_items", json!(items.len()));
     }
     let mut digests: Vec<(String, String, usize)> = vec![];
-    for nt in ["1", "2", "4", "16"] {
-        let out = std::process::Command::new(&me)
-            .args(["c18-transcript", &seed.to_string(), &dirs, &corpus_path, &n_proofs.to_string()])
-            .env("RAYON_NUM_THREADS", nt)
-            .output();
+    // pool sizes given explicitly (powers of two, odd and prime sizes) and - "cpus=N" - taken by the library's
+    // dependencies from the machine: the child is confined to N processors and RAYON_NUM_THREADS is not set
+    for nt in ["1", "2", "3", "4", "5", "7", "16", "cpus=3", "cpus=6"] {
+        let mut cmd = std::process::Command::new(&me);
+        cmd.args(["c18-transcript", &seed.to_string(), &dirs, &corpus_path, &n_proofs.to_string()]);
+        if let Some(n) = nt.strip_prefix("cpus=") {
+            let n: usize = n.parse().unwrap();
+            cmd.env_remove("RAYON_NUM_THREADS");
+            use std::os::unix::process::CommandExt;
+            unsafe {
+                cmd.pre_exec(move || {
+                    let mut cur: libc::cpu_set_t = std::mem::zeroed();
+                    if libc::sched_getaffinity(0, std::mem::size_of::<libc::cpu_set_t>(), &mut cur) != 0 {
+                        return Ok(());
+                    }
+                    let mut set: libc::cpu_set_t = std::mem::zeroed();
+                    let mut k = 0;
+                    for c in 0..libc::CPU_SETSIZE as usize {
+                        if libc::CPU_ISSET(c, &cur) && k < n {
+                            libc::CPU_SET(c, &mut set);
+                            k += 1;
+                        }
+                    }
+                    libc::sched_setaffinity(0, std::mem::size_of::<libc::cpu_set_t>(), &set);
+                    Ok(())
+                });
+            }
+        } else {
+            cmd.env("RAYON_NUM_THREADS", nt);
+        }
+        let out = cmd.output();
         match out {
             Ok(o) if o.status.success() => {
                 let s = String::from_utf8_lossy(&o.stdout).to_string();
@@ -938,7 +983,7 @@ fn recreate_loop(rep: &mut Rep, seed: u64, cycles: usize) {
 }
 
 pub fn run(rep: &mut Rep, args: &[String]) {
-    rep.rule = "(1) the transcript (roots after 24 batch updates incl. rayon-parallel range writes on a persistent tree, serialized and graph witnesses, proof values, proof generation + verification verdicts, verdicts on a fixed corpus of valid/tampered/truncated messages) of separate processes with RAYON_NUM_THREADS in {1,2,4,16} must have the same SHA-256; (2) every read-only call kind (verify*, get_root/leaf/proof/subtree_root/empty indices/metadata, hash, poseidon_hash, seeded keygen, witness calculation, recover) issued concurrently by 2..64 threads on one shared instance, through &RLN and through *const RLN of the FFI, must return its sequential result; (2b) a storm of cheap pure calls (Poseidon through three entry points, hash-to-field, seeded key derivation) from 2..16 threads walking over the same few related inputs must return the from-spec reference values; (2d) the bundled witness graph and a variant of it are evaluated by 8 threads at the same time and must give their sequential results; (2c) fresh instances receive their very first calls from 8 threads at once (no sequential warm-up) and must answer like a sequentially queried twin; fresh processes race the first use of the lazily initialised globals; (4) create-write-flush-drop-create cycles on one storage location. distinct_nontrivial = distinct (call kind x concurrently in-flight call kind) overlaps actually observed, pool sizes, recreate latency classes".into();
+    rep.rule = "(1) the transcript (roots after 24 batch updates incl. rayon-parallel range writes on a persistent tree, serialized and graph witnesses, proof values, proof generation + verification verdicts, verdicts on a fixed corpus of valid/tampered/truncated messages) of separate processes (explicit pool sizes 1,2,3,4,5,7,16 and children confined to 3 / 6 processors with the pool size left to the machine; batches of up to 7919 leaves whose length no small worker count divides, through set_leaves_from, atomic_operation and init_tree_with_leaves) must have the same SHA-256; (2) every read-only call kind (verify*, get_root/leaf/proof/subtree_root/empty indices/metadata, hash, poseidon_hash, seeded keygen, witness calculation, recover) issued concurrently by 2..64 threads on one shared instance, through &RLN and through *const RLN of the FFI, must return its sequential result; (2b) a storm of cheap pure calls (Poseidon through three entry points, hash-to-field, seeded key derivation) from 2..16 threads walking over the same few related inputs must return the from-spec reference values; (2d) the bundled witness graph and a variant of it are evaluated by 8 threads at the same time and must give their sequential results; (2c) fresh instances receive their very first calls from 8 threads at once (no sequential warm-up) and must answer like a sequentially queried twin; fresh processes race the first use of the lazily initialised globals; (4) create-write-flush-drop-create cycles on one storage location. distinct_nontrivial = distinct (call kind x concurrently in-flight call kind) overlaps actually observed, pool sizes, recreate latency classes".into();
     rep.assumptions = vec!["schedules are sampled, not enumerated; a watchdog timeout is inconclusive, not a violation".into()];
     let thorough = rep.thorough();
     let seed = rep.seed;
